@@ -9,10 +9,10 @@ from .. import engine, common, gen
 
 ID = "C01"
 
-DEPS = ["impl", "gen_inline", "gen_where", "val_gen", "val_impl", "concrete", "nodeps"]
+DEPS = ["impl", "gen_inline", "gen_where", "val_gen", "val_impl", "concrete", "val_concrete", "nodeps"]
 DEPS_DESC = {
     "impl": "deps: &impl Dep", "gen_inline": "<D: Dep>(deps: &D)", "gen_where": "<D>(deps: &D) where D: Dep",
-    "val_gen": "<D: Dep>(deps: D)", "val_impl": "deps: impl Dep", "concrete": "deps: &App", "nodeps": "no_deps",
+    "val_gen": "<D: Dep>(deps: D)", "val_impl": "deps: impl Dep", "concrete": "deps: &App", "val_concrete": "deps: App", "nodeps": "no_deps",
 }
 PARAMS = "irmstunw"
 
@@ -38,7 +38,7 @@ def enumerate_states(tier):
                 for container in ("fn", "mod"):
                     for mock in (False, True):
                         for feature in (False, True):
-                            if deps == "concrete" and container == "mod":
+                            if deps in ("concrete", "val_concrete") and container == "mod":
                                 continue  # rejected by design: concrete deps in a module (C15's business)
                             if len(w) > full_arity:
                                 # deeper words only on the base configurations
@@ -56,7 +56,8 @@ def enumerate_states(tier):
     for deps in DEPS:
         for asy in (False, True):
             for feature in (False, True):
-                states.append(make_state("iii", deps, asy, "mac", False, feature))
+                if deps != "val_concrete":
+                    states.append(make_state("iii", deps, asy, "mac", False, feature))
     # every non-root state has exactly one incoming 'append a parameter' edge inside its configuration
     transitions = sum(1 for s in states if s["params"])
     return states, transitions, dict(param_alphabet=len(PARAMS), arity_full=full_arity, arity_base=base_arity)
@@ -82,6 +83,8 @@ def render_fn(s, j, vis):
         deps_param = "deps: impl Dep"
     elif deps == "concrete":
         deps_param = "deps: &App"
+    elif deps == "val_concrete":
+        deps_param = "deps: App"
     plist = ([deps_param] if deps_param else []) + [gen.param_decl(k, i + 1) for i, k in enumerate(params)]
     if s["container"] == "mac":
         # `$p` is spelled `x` at the call site, the second `x` belongs to the macro body: distinct bindings
@@ -92,6 +95,8 @@ def render_fn(s, j, vis):
         head = ["0usize", "rt::tn(&deps)", "deps.tok()"]
     elif deps == "concrete":
         head = ["rt::addr(deps)", "rt::tn(deps)", "deps.tok"]
+    elif deps == "val_concrete":
+        head = ["0usize", "rt::tn(&deps)", "deps.tok"]
     else:
         head = ["0usize", '"-"', "0u64"]
     shows = []
@@ -175,6 +180,11 @@ def render(s):
             tn = "rt::tn_of::<::entrait::Impl<App>>()"
             emit("d%d" % j, "%s%s(%s)" % (path, f, ", ".join(["::entrait::Impl::new(App { tok: 7 })"] + args)), "0usize", tn)
             emit("t%d" % j, "::entrait::Impl::new(App { tok: 7 }).%s(%s)" % (f, ", ".join(args)), "0usize", tn)
+        elif deps == "val_concrete":
+            tn = "rt::tn_of::<App>()"
+            emit("d%d" % j, "%s(%s)" % (f, ", ".join(["App { tok: 7 }"] + args)), "0usize", tn)
+            emit("t%d" % j, "Tr::%s(%s)" % (f, ", ".join(["App { tok: 7 }"] + args)), "0usize", tn)
+            emit("c%d" % j, "<::entrait::Impl<App> as Tr>::%s(%s)" % (f, ", ".join(["::entrait::Impl::new(App { tok: 7 })"] + args)), "0usize", tn)
         elif deps == "concrete":
             L.append("        let app = App { tok: 7 };")
             L.append("        let iapp = ::entrait::Impl::new(App { tok: 7 });")
@@ -199,7 +209,7 @@ def model(s):
         shown += gen.param_expected(k, i + 1)
     muts = [str(10 + i + 1 + 100) for i, k in enumerate(params) if k == "m"]
     tok = "0" if s["deps"] == "nodeps" else "7"
-    calls = ["d", "t"] + (["c"] if s["deps"] == "concrete" else [])
+    calls = ["d", "t"] + (["c"] if s["deps"] in ("concrete", "val_concrete") else [])
     for j, _ in enumerate(fn_names(s)):
         for c in calls:
             exp["%s%d" % (c, j)] = dict(
